@@ -81,6 +81,9 @@ func (p *Project) SourceFiles() map[string]string {
 	for _, e := range Engines {
 		out["auth/"+e+"/auth.go"] = p.authSrc(e)
 	}
+	for _, x := range p.Extensions {
+		out["ext/"+x+".hbs"] = "// sim extension " + x + "\n"
+	}
 	type fileAcc struct {
 		pkg     string
 		imports map[string]bool
@@ -149,7 +152,7 @@ func (p *Project) SourceFiles() map[string]string {
 			fmt.Fprintf(&a.body, "// @Route(%s)\n", c.Route)
 		}
 		for _, s := range c.Security {
-			fmt.Fprintf(&a.body, "// @Security(%s, { scopes: %s })\n", s.Scheme, jsonList(s.Scopes))
+			a.body.WriteString(securityLine(s))
 		}
 		fmt.Fprintf(&a.body, "type %s struct {\n\truntime.GleeceController\n}\n\n", c.Name)
 		for mi := range c.Methods {
@@ -184,6 +187,13 @@ func (p *Project) SourceFiles() map[string]string {
 		out[k] = b.String()
 	}
 	return out
+}
+
+func securityLine(s Alt) string {
+	if s.Bare && len(s.Scopes) == 0 {
+		return fmt.Sprintf("// @Security(%s)\n", s.Scheme)
+	}
+	return fmt.Sprintf("// @Security(%s, { scopes: %s })\n", s.Scheme, jsonList(s.Scopes))
 }
 
 func jsonList(xs []string) string {
@@ -240,7 +250,7 @@ func (p *Project) renderMethod(imports map[string]bool, b *strings.Builder, c *C
 		fmt.Fprintf(b, "// @ErrorResponse(%d) failure %d\n", ec, ec)
 	}
 	for _, s := range m.Security {
-		fmt.Fprintf(b, "// @Security(%s, { scopes: %s })\n", s.Scheme, jsonList(s.Scopes))
+		b.WriteString(securityLine(s))
 	}
 	if m.Hidden {
 		b.WriteString("// @Hidden\n")
@@ -326,6 +336,13 @@ func (p *Project) Config(o ConfigOpts) string {
 	}
 	if o.PackageName != "" {
 		rc["packageName"] = o.PackageName
+	}
+	if len(p.Extensions) > 0 {
+		ext := m{}
+		for _, x := range p.Extensions {
+			ext[x] = "./ext/" + x + ".hbs"
+		}
+		rc["templateExtensions"] = ext
 	}
 	cfg := m{
 		"commonConfig":           m{"controllerGlobs": p.Globs},
